@@ -68,13 +68,22 @@ class Ctx:
 
     # ------------------------------------------------------------------ build
     def build_mvh(self, race=False):
-        """Build the harness against /repo's current working tree, hooks on."""
+        """Build the harness against /repo's current working tree, hooks on. The harness sources are copied
+        to the scratch directory first (checks may run concurrently) and the enum registry is regenerated
+        from /repo/pkg/dialects."""
         env = dict(os.environ)
         env.update(GOENV)
-        shutil.copy(os.path.join(REPO, "go.sum"), os.path.join(HARNESS, "go.sum"))
+        hdir = self.path("harness")
+        if not os.path.isdir(hdir):
+            shutil.copytree(HARNESS, hdir)
+            shutil.copy(os.path.join(REPO, "go.sum"), os.path.join(hdir, "go.sum"))
+            g = subprocess.run([sys.executable, os.path.join(VERIF, "lib", "genenums.py"), REPO,
+                                os.path.join(hdir, "cmd", "mvh", "zz_enums_gen.go")], capture_output=True, text=True)
+            if g.returncode != 0:
+                raise Inconclusive("enum registry generation failed: " + g.stdout + g.stderr)
         out = self.path("mvh_race" if race else "mvh")
         cmd = ["go", "build", "-tags", "verif"] + (["-race"] if race else []) + ["-o", out, "./cmd/mvh"]
-        p = subprocess.run(cmd, cwd=HARNESS, env=env, capture_output=True, text=True)
+        p = subprocess.run(cmd, cwd=hdir, env=env, capture_output=True, text=True)
         if p.returncode != 0:
             raise Inconclusive("harness build failed:\n" + p.stdout + p.stderr)
         if not race:
